@@ -55,6 +55,12 @@ ASSUMPTIONS = ["oracle: reading-frame walker bcv/models/framemodel.py (self-test
 WATCHDOG = {"quick": 1500, "thorough": 4 * 3600}
 
 
+def setup(ctx):
+    from bcv import core
+
+    core.codon_storm(ctx)
+
+
 def selftest():
     from bcv.core import HarnessError
 
